@@ -594,7 +594,13 @@ def _run_crash(sess: Session, rng: random.Random, case: dict):
                 r = sess.do(("D", rid, True))
             done += r.get("commits", 0)
         else:
-            sess.do(("D", rid, True) if case.get("drain", "fifo") == "fifo" else ("D", rng.choice([x["id"] for x in rows]), True))
+            drain = case.get("drain", "fifo")
+            if drain == "fifo":
+                sess.do(("D", rid, True))
+            elif drain == "lifo":      # what recovery re-queued is delivered before what was already waiting
+                sess.do(("D", pick(rows, rng, "lifo"), True))
+            else:
+                sess.do(("D", rng.choice([x["id"] for x in rows]), True))
         steps += 1
 
 
@@ -768,6 +774,30 @@ def plan(pid: str, tier: str, rng: random.Random) -> list[dict]:
                 add(kind="inject", what="pause", at=at, unpause_at=at + 5, spec=fam[n], name=n, policy="random", cancel_with_unpause=False)
             for at in range(0, 60 if thorough else 30, 2):
                 add(kind="crash", at=at, spec=fam[n], name=n, drain="random")
+    if pid in ("C16",):
+        # what a task sees when its stage starts - through the ENGINE: every delivery order, a crash after every commit
+        # (the claim / plan window included) with restart + recovery, and sweeps before every step
+        data = {"data_chain": {"stages": [S("A", tasks=[["ok:k1=1,k2=1"]]), S("B", ["A"], tasks=[["ok:k2=2"]]), S("C", ["B"], tasks=[["ok"], ["ok:k3=3"]]),
+                                          S("D", ["C"])]},
+                "data_diamond": {"stages": [S("A", tasks=[["ok:k1=1,k2=1"]]), S("B", ["A"], tasks=[["ok:k1=2"]]), S("C", ["A"], tasks=[["ok:k3=3"]]),
+                                            S("D", ["B", "C"], ctx={"k2": 12}), S("E", ["D"])]},
+                "data_first_of": {"stages": [S("A", tasks=[["ok:k1=1"]]), S("B", ["A"], tasks=[["ok:k2=2"]]), S("C", ["A"], tasks=[["ok:k2=2"]]),
+                                             S("J", ["B", "C"], join="DISCRIMINATOR"), S("K", ["J"])]},
+                "data_syn": {"stages": [S("A", tasks=[["ok:k1=1"]]),
+                                        dict(S("P", ["A"], tasks=[["ok:k2=2"]]), before=[{"ref": "P.b0", "reqs": [], "tasks": [["ok"]]}],
+                                             after=[{"ref": "P.a0", "reqs": [], "tasks": [["ok"]]}]),
+                                        S("Z", ["P"])]}}
+        schedules(list(data.items()), ["fifo", "lifo", "random"], 4 if thorough else 2)
+        probe = run_batch([{"kind": "policy", "policy": "fifo", "seed": 0, "spec": sp, "name": n, "max_steps": 200} for n, sp in data.items()])
+        ncommits = {o["case"]["name"]: sum(len(t) for t in o["traces"]) for o in probe}
+        for n, sp in data.items():
+            for at in range(0, min(ncommits.get(n, 60) + 1, 120)):
+                add(kind="crash", at=at, spec=sp, name=n, drain="fifo")
+                add(kind="crash", at=at, spec=sp, name=n, drain="lifo")
+                if thorough:
+                    add(kind="crash", at=at, spec=sp, name=n, drain="random")
+            for at in range(0, 30 if thorough else 18):
+                add(kind="inject", what="recover", at=at, times=1 + (at % 2), spec=sp, name=n, policy="fifo")
     if pid in ("C18",):
         sus2 = {"suspend": (fam["suspend"], 0), "suspend_twice": ({"stages": [S("A", tasks=[["susp", "susp", "ok"]]), S("B", ["A"])]}, 0),
                 "suspend2": ({"stages": [S("A"), S("B", ["A"], tasks=[["ok"], ["susp", "ok:k1=1"]]), S("C", ["B"])]}, 1)}
@@ -849,6 +879,8 @@ def monitor(pid: str, out: dict, base: dict | None) -> list[Violation]:
         vs += M.m_c17(out)
     if pid == "C18":
         vs += M.m_c18(out)
+    if pid == "C16" and base is not None:
+        vs += M.m_c16(out, base)
     return vs
 
 
